@@ -38,7 +38,7 @@ const (
 )
 
 type Mut struct {
-	Kind      string    `json:"kind"` // byte | trunc | outer-op | inner-op | id-edit | blank | splice | id-swap | semantic
+	Kind      string    `json:"kind"` // byte | trunc | outer-op | inner-op | id-edit | blank | splice | id-swap | semantic | forgery
 	Part      int       `json:"part"`
 	Pos       int       `json:"pos"`
 	Mask      int       `json:"mask"`
@@ -305,6 +305,8 @@ func applyMut(A, B *space, m Mut) (mt mutant, ok bool) {
 		mt.desc = fmt.Sprintf("%s id := foreign id %d", partNames[p], mutate.Mod(m.Sub, len(ids)))
 	case "semantic":
 		return semanticMut(A, B, mutate.Mod(m.Sub, nSemantic))
+	case "forgery":
+		return forgeryMut(A, B, m)
 	default:
 		return mt, false
 	}
@@ -482,6 +484,15 @@ func modelConsistent(ps [3]part) error {
 	sc, err := verifyWrapped(ps[pSet].Bytes, setIdentity)
 	if err != nil {
 		return fmt.Errorf("settings root: %w", err)
+	}
+	// ACL root: the master key signs the raw identity
+	mkProto, idProto := bytesVal(ac, aclMasterKey), bytesVal(ac, aclIdentity)
+	if _, ok := mutate.Parse(mkProto); !ok {
+		return fmt.Errorf("acl root master key: %w", errUnparsed)
+	}
+	if mk := bytesVal(mkProto, keyData); len(mk) != ed25519.PublicKeySize ||
+		!ed25519.Verify(ed25519.PublicKey(mk), bytesVal(idProto, keyData), bytesVal(ac, aclIdentitySignature)) {
+		return fmt.Errorf("acl root: identity signature does not verify under the named master key")
 	}
 	if want := cidOf(ps[pHdr].Bytes) + "." + strconv.FormatUint(varintVal(hc, hdrRepKey), 36); ps[pHdr].Id != want {
 		return fmt.Errorf("space id %q is not hash.replicationKey %q", ps[pHdr].Id, want)
